@@ -542,6 +542,53 @@ fn var_words(tier: Tier, f: &mut dyn FnMut(String)) {
     words_upto(alpha.len(), tier.pick(3, 4), &mut |w| f(w.iter().map(|i| alpha[*i]).collect()));
 }
 
+/// JSON-LD: almost no token word is even JSON, so the syntax is also enumerated as *trees*: all
+/// objects of <= 2 entries over 20 keys (keywords, an IRI, a term, a blank node key) whose values
+/// are scalars, one-element arrays or (depth 2) single-entry objects
+fn json_trees(tier: Tier, f: &mut dyn FnMut(String)) {
+    const KEYS: [&str; 20] = [
+        "@id", "@type", "@value", "@language", "@list", "@graph", "@reverse", "@set", "@index", "@direction", "@context", "@vocab", "@base", "@included", "@nest", "@container", "@version",
+        "http://a/p", "t", "_:k",
+    ];
+    const SCALARS: [&str; 18] = [
+        "\"http://a/x\"", "\"http://[::1]/\"", "\"r\"", "\"_:b\"", "\"_:b.\"", "\"en\"", "\"a-\"", "1e400", "1", "true", "null", "\"@id\"", "\"@json\"", "\"@none\"", "\"ltr\"", "[]", "{}", "1.1",
+    ];
+    let mut d1: Vec<String> = SCALARS.iter().map(|s| s.to_string()).collect();
+    for s in SCALARS {
+        d1.push(format!("[{s}]"));
+    }
+    let mut d2 = d1.clone();
+    for k in KEYS {
+        for v in SCALARS {
+            d2.push(format!("{{\"{k}\":{v}}}"));
+        }
+    }
+    // single-entry objects, values up to depth 2
+    for k in KEYS {
+        for v in &d2 {
+            f(format!("{{\"{k}\":{v}}}"));
+        }
+    }
+    // two-entry objects: scalar/array values; in the thorough tier one of the two values may be a nested object
+    for (i, k1) in KEYS.iter().enumerate() {
+        for k2 in &KEYS[i + 1..] {
+            for v1 in &d1 {
+                for v2 in &d1 {
+                    f(format!("{{\"{k1}\":{v1},\"{k2}\":{v2}}}"));
+                }
+            }
+            if tier == Tier::Thorough {
+                for v1 in &d2[d1.len()..] {
+                    for v2 in SCALARS {
+                        f(format!("{{\"{k1}\":{v1},\"{k2}\":{v2}}}"));
+                        f(format!("{{\"{k1}\":{v2},\"{k2}\":{v1}}}"));
+                    }
+                }
+            }
+        }
+    }
+}
+
 const NEST_KINDS: [&str; 9] = ["collection", "property-list", "quoted-triple", "quoted-triple-object", "annotation", "xml-elements", "xml-parsetype-resource", "json-arrays", "json-objects"];
 fn nest_applies(kind: &str, parser: &str) -> bool {
     match kind {
@@ -667,6 +714,9 @@ impl Pooled for C08 {
                         emit(parser, "variable", None, d.into_bytes(), f);
                     }
                 });
+            }
+            if parser == "jsonld" {
+                json_trees(tier, &mut |d| emit(parser, "json-tree", None, d.into_bytes(), f));
             }
             // configured base
             if matches!(parser, "turtle" | "trig" | "gtrig" | "xml" | "jsonld") {
@@ -811,7 +861,7 @@ pub fn run(tier: Tier) -> Report {
     rep.violations = o.violations;
     rep.caps = o.caps;
     rep.rule = format!(
-        "8 parsers (nt nq turtle trig gnq gtrig xml jsonld/NoLoader) x families: every single edit (deletion, truncation, 8 bit flips, replacement and insertion of each of {} byte strings incl. ill-formed UTF-8) at every position of each seed document; every word of <= {} tokens over the syntax's token alphabet; every string of <= {} symbols over an IRI-oriented alphabet (incl. \\u escapes, brackets, percent, private-use and non-characters) under 5 templates, embedded at every IRI position of every syntax (subject/predicate/object/graph/datatype/prefix/base/pname/xmlns/xml:base/rdf:ID/@id/@type/@vocab/@base); blank node labels, language tags and variable names of <= {} symbols; configured base IRIs accepted by Iri::new; each in the checked (debug assertions) and release builds; nesting ladders (collections, property lists, quoted triples, annotations, XML elements, parseType=Resource, JSON arrays and objects) to depth {} and single tokens of up to {} bytes in the dev and release builds on a 2 MiB thread; oracle: the parser returns (no hang, no crash, no panic) and every accessor of every yielded term returns a value accepted by the toolkit's own validator (absolute IRIs from strict parsers); non-trivial = at least one statement was yielded and checked",
+        "8 parsers (nt nq turtle trig gnq gtrig xml jsonld/NoLoader) x families: every single edit (deletion, truncation, 8 bit flips, replacement and insertion of each of {} byte strings incl. ill-formed UTF-8) at every position of each seed document; every word of <= {} tokens over the syntax's token alphabet; every string of <= {} symbols over an IRI-oriented alphabet (incl. \\u escapes, brackets, percent, private-use and non-characters) under 5 templates, embedded at every IRI position of every syntax (subject/predicate/object/graph/datatype/prefix/base/pname/xmlns/xml:base/rdf:ID/@id/@type/@vocab/@base); blank node labels, language tags and variable names of <= {} symbols; JSON-LD trees (objects of <= 2 entries over 20 keys incl. 17 keywords, values = 18 scalars, one-element arrays, and single-entry objects); configured base IRIs accepted by Iri::new; each in the checked (debug assertions) and release builds; nesting ladders (collections, property lists, quoted triples, annotations, XML elements, parseType=Resource, JSON arrays and objects) to depth {} and single tokens of up to {} bytes in the dev and release builds on a 2 MiB thread; oracle: the parser returns (no hang, no crash, no panic) and every accessor of every yielded term returns a value accepted by the toolkit's own validator (absolute IRIs from strict parsers); non-trivial = at least one statement was yielded and checked",
         edit_alphabet(tier).len(),
         tier.pick(3, 4),
         tier.pick(2, 3),
